@@ -39,6 +39,7 @@ class TLCResult:
     coverage: dict = field(default_factory=dict)
     violated: list = field(default_factory=list)
     printed: list = field(default_factory=list)
+    invariant_tids: dict = field(default_factory=dict)    # trace id -> invariants that failed on it (validation runs)
 
 
 _RE_STATES = re.compile(
@@ -183,13 +184,22 @@ def validate_traces(module: str, traces: list, *, tag: str, cfg: str | None = No
     f.write_text(json.dumps(traces))
     e = dict(env or {})
     e["TRACE_FILE"] = str(f)
-    res = run_tlc(module, cfg, tag=tag, env=e, workers=1, timeout=timeout, deadlock=False)
+    # -continue: an invariant of the specification that fails on ONE recorded trace must not stop the
+    # validation of the others; the traces on which an invariant failed are not accepted
+    res = run_tlc(module, cfg, tag=tag, env=e, workers=1, timeout=timeout, deadlock=False, extra=["-continue"])
     acc: set = set()
     progress: dict = {}
     m = re.search(r'<<\s*"ACCEPTED",\s*(\{[^}]*\})\s*>>', res.output, re.S)
     if m is None:
         raise MachineryError(f"trace validation produced no verdict ({module}):\n{res.output[-3000:]}")
     acc = {int(x) for x in re.findall(r"\d+", m.group(1))}
+    inv_tids: dict = {}
+    for blk in re.finditer(r"Invariant (\w+) is violated\.(.*?)(?=Error: Invariant|\Z)", res.output, re.S):
+        tids = re.findall(r"/\\ tid = (\d+)", blk.group(2))
+        if tids:
+            inv_tids.setdefault(int(tids[-1]), []).append(blk.group(1))
+    res.invariant_tids = inv_tids
+    acc -= set(inv_tids)
     m = re.search(r'<<\s*"PROGRESS",(.*?)\n(?:Model checking completed|Finished|<<\s*")', res.output, re.S)
     if m:
         body = m.group(1)
